@@ -39,6 +39,9 @@ SW = "sim::elem_sw<0>"
 for i, (fl, e) in enumerate([("NM", NM), ("TM", TM), ("MO", MO), ("MN", MN), ("CO", CO)]):
     add("core_" + fl, e, sim_alloc(e, cfg()), NSETS[i % len(NSETS)],
         packs=("core", "c17") if fl in ("NM", "TM", "MO") else ("core",))
+# large inline capacities
+add("core_NM_bigN", NM, sim_alloc(NM, cfg()), (16, 33, 5), packs=("core",))
+add("core_TM_bigN", TM, sim_alloc(TM, cfg(1, 1, 1)), (24, 7, 40), packs=("core", "alloc"))
 # nothrow moves + throwing user swap: plain allocator, propagating-on-swap allocator, std::allocator
 add("core_SW", SW, sim_alloc(SW, cfg()), NSETS[2], packs=("core",))
 add("alloc_SW_001", SW, sim_alloc(SW, cfg(0, 0, 1)), NSETS[0], packs=("alloc",))
